@@ -154,7 +154,9 @@ Local Close Scope Z_scope.
 Inductive protocol :=
 | PSession | PGennaro | PCanetti | PHjky | PRedistribute
 | PDkls23Bbot | PDkls23Softspoken | PLindell22 | PBoldyreva
-| PLindell17Primary | PLindell17Secondary.
+| PLindell17Primary | PLindell17Secondary
+| POtSender | POtReceiver       (* pkg/ot/base/ecbbot on its own: the choice bits are an input *)
+| PVoleAlice | PVoleBob.        (* pkg/mpc/rvole/bbot on its own: Bob draws his choice bits beta *)
 
 (* what the specification depends on *)
 Record cfg := mkCfg {
@@ -205,6 +207,11 @@ Definition draws (p : protocol) (c : cfg) (round : N) : list draw :=
   | PLindell17Primary, 1 => sc c SNonce 0 :: scs c SProofNonce (c_rho c) ++ [raw SWitness 0 32]
   | PLindell17Secondary, 2 => sc c SNonce 0 :: scs c SProofNonce (c_rho c)
   | PLindell17Secondary, 4 => raw SMask 0 64 :: map (fun i => raw SPaillierNonce i (c_pail c)) (idxs 3)
+  | POtSender, 1 => [sc c SOtSenderKey 0]
+  | POtReceiver, 2 => rep (c_xi c * c_l c * 3) (sc c SOtReceiver 0)
+  | PVoleAlice, 1 => [sc c SOtSenderKey 0]
+  | PVoleAlice, 3 => rep (c_rho c) (sc c SVoleAHat 0)
+  | PVoleBob, 2 => ot_receiver c 0
   | _, _ => []
   end.
 
